@@ -115,4 +115,10 @@ CHECKS["C09"] = {"engine": "xsd", "technique": "TLA+ transcription of the XSD le
               "~1 500 Python values (ints, floats from random bit patterns, Decimals with exponents +-40, dates / times / datetimes with offsets, timedeltas, Durations) and eq() over all pairs of a 61-literal pool; TLC validates ill_typed against Valid(dt, lex), "
               "the value against Canon / fields, validity and same value of the normalised form, idempotence, documented datatype and round trip of Python values, and eq against term equality, Python equality and XSD equality.")}
 ENGINES += [{"name": "xsd", "path": "spec/XsdLexical.tla spec/MCXsdLexical.tla spec/TraceXsd.tla harness/rvf/xsd_replay.py", "serves_properties": ["C09"], "kind_free_text": "XSD lexical spaces in TLA+ as the oracle for Literal construction"}]
+CHECKS["C05"] = {"engine": "spelling", "technique": "TLA+ writer machine for the Turtle family (TurtleSpelling.tla: token-by-token author choices with the meaning G of the document maintained by the grammar's semantic actions; invariants model-checked; behaviours exported by TLC in simulation mode) + strict N-Triples / N-Quads recogniser-decoder in TLA+ (NTriplesGrammar.tla) + TLC validation of what rdflib parsed / wrote (TraceSpell.tla)",
+    "note": _NOTE_COMMON + " White space, comments, escape style, keyword case and the concrete strings are seeded choices of the Python renderer, not enumerated by TLC. RDF/XML and JSON-LD spellings are 28 hand-enumerated documents, not a writer machine. Blank nodes per document are capped at 6 (n! oracle).",
+    "level": ("~500 (thorough: thousands of) behaviours of the writer machine per syntax (N-Triples, N-Quads, Turtle, TriG: directives re-bound midway, absolute / base-relative / prefixed IRIs legal in the environment in force, 'a', four quotings, shorthand literals, ';' ',' [] () nesting, TriG blocks, N-Quads labels), "
+              "each rendered twice with random layout and escapes over hostile strings and local names, parsed through 7 routes (str, bytes, BytesIO, StringIO, path, pathlib.Path, open file) and validated by TLC against the machine's G up to blank-node bijection; 16 RDF/XML and 12 JSON-LD spellings of fixed graphs likewise; "
+              "rdflib's N-Triples / N-Quads output for ~300 C03 shapes decoded line by line by the strict TLA+ grammar and compared with the source; XML / JSON outputs read by expat / json.")}
+ENGINES += [{"name": "spelling", "path": "spec/TurtleSpelling.tla spec/NTriplesGrammar.tla spec/TraceSpell.tla harness/rvf/spell_replay.py harness/rvf/spell_docs.py", "serves_properties": ["C05"], "kind_free_text": "writer state machine + strict grammar in TLA+; rdflib parses what the machine writes"}]
 NOT_BUILT: dict = {}
